@@ -276,6 +276,48 @@ def gen() -> None:
         if frag not in setter:
             raise px.Unsupported(f"_set_cache_value changed (missing {frag!r})")
 
+    # T2: the four `return None` guards over begin / end / last_end in parse_range_header's loop
+    prh = px.find_def(http, "parse_range_header")
+
+    def zexpr(n):
+        if isinstance(n, ast.Name) and n.id in ("begin", "end", "last_end"):
+            return {"begin": "b", "end": "e", "last_end": "le"}[n.id]
+        if isinstance(n, ast.Constant) and isinstance(n.value, int) and not isinstance(n.value, bool):
+            return f"({n.value})"
+        raise px.Unsupported(f"parse_range_header guard operand not recognised: {ast.unparse(n)}")
+
+    def zbool(n):
+        if isinstance(n, ast.BoolOp):
+            return "(" + (" || " if isinstance(n.op, ast.Or) else " && ").join(zbool(v) for v in n.values) + ")"
+        if isinstance(n, ast.UnaryOp) and isinstance(n.op, ast.Not):
+            return f"(negb {zbool(n.operand)})"
+        if isinstance(n, ast.Compare):
+            ops = [n.left, *n.comparators]
+            parts = []
+            for i, op in enumerate(n.ops):
+                a, b2 = zexpr(ops[i]), zexpr(ops[i + 1])
+                t = {ast.Lt: f"({a} <? {b2})", ast.LtE: f"({a} <=? {b2})", ast.Gt: f"({b2} <? {a})", ast.GtE: f"({b2} <=? {a})",
+                     ast.Eq: f"({a} =? {b2})", ast.NotEq: f"(negb ({a} =? {b2}))"}.get(type(op))
+                if t is None:
+                    raise px.Unsupported(f"parse_range_header guard operator not recognised: {ast.unparse(n)}")
+                parts.append(t)
+            return "(" + " && ".join(parts) + ")"
+        raise px.Unsupported(f"parse_range_header guard not recognised: {ast.unparse(n)}")
+    guards = []
+    for node in ast.walk(prh):
+        if isinstance(node, ast.If) and len(node.body) == 1 and isinstance(node.body[0], ast.Return) \
+                and isinstance(node.body[0].value, ast.Constant) and node.body[0].value.value is None and not node.orelse:
+            names = {x.id for x in ast.walk(node.test) if isinstance(x, ast.Name)}
+            if names and names <= {"begin", "end", "last_end"}:
+                guards.append((node.lineno, names, node.test))
+    guards.sort(key=lambda g: g[0])
+    want_names = [{"last_end"}, {"begin"}, {"begin", "last_end"}, {"begin", "end"}]
+    if [g[1] for g in guards] != want_names:
+        raise px.Unsupported(f"parse_range_header: guards over begin/end/last_end changed: {[ast.unparse(g[2]) for g in guards]}")
+    guard_defs = ""
+    for nm, (_, _, test) in zip(["prh_guard_suffix_after_open", "prh_guard_suffix_zero", "prh_guard_order", "prh_guard_empty"], guards):
+        guard_defs += f"Definition {nm} (b e le : Z) : bool := {zbool(test)}%Z.   (* {ast.unparse(test)} *)\n"
+
     # T2: is_byte_range_valid
     fn = px.find_def(http, "is_byte_range_valid")
     argn = [a.arg for a in fn.args.args]
@@ -306,6 +348,7 @@ def gen() -> None:
         nm = name.strip("_")
         text += f"Definition {nm}_text : list N := {codes(_verbose_strip(p) if f & re.X else p)}.\n"
         text += f"Definition {nm}_flags : N := {int(f)}.\n"
+    text += "\n(* T2: the `return None` guards of parse_range_header's loop, in source order (b = begin, e = end, le = last_end) *)\n" + guard_defs
     text += ("\n(* T2: http.is_byte_range_valid, statement by statement; None = a comparison with None (TypeError) *)\n"
              "Definition is_byte_range_valid (start stop length : option Z) : option bool :=\n  " + ibrv + ".\n")
     px.write_if_changed(os.path.join(COQ, "C06", "Gen.v"), text)
